@@ -3,6 +3,7 @@ package harness
 import (
 	"encoding/hex"
 	"encoding/json"
+	"errors"
 	"fmt"
 	"math"
 	"reflect"
@@ -505,6 +506,12 @@ func Exotic(name string) any {
 		return &PubStruct{Name: "n", Age: 3}
 	case "embed_struct":
 		return embedStruct{PubStruct: PubStruct{Name: "e"}, extra: "x"}
+	case "map_str_error":
+		return map[string]error{"a": errors.New("x"), "name": nil}
+	case "map_str_stringer":
+		return map[string]fmt.Stringer{"a": time.Second, "Tags": nil}
+	case "map_str_iface":
+		return map[string]interface{ Error() string }{"a": errors.New("y")}
 	case "embed_nil_ptr":
 		return embedNilPtr{Zip: 7}
 	case "embed_nil_ptr_ptr":
@@ -656,5 +663,5 @@ var ExoticNames = []string{
 	"slice_of_maps", "slice_of_nil", "nested_empty_slices", "time_zero", "time_ptr", "duration", "error", "stringer_nilptr",
 	"struct_empty", "uintptr", "reflect_value",
 	"ptr_to_nil_ptr_struct", "ptr_ptr_to_nil_map", "ptr_to_nil_ptr_string", "ptr_to_nil_slice", "ptr_to_nil_map",
-	"embed_nil_ptr", "embed_nil_ptr_ptr",
+	"embed_nil_ptr", "embed_nil_ptr_ptr", "map_str_error", "map_str_stringer", "map_str_iface",
 }
